@@ -14,6 +14,14 @@ RELAY = PROXY + ["modules/l4proxy/verif_relay_test.go"]
 HEALTH = PROXY + ["modules/l4proxy/verif_health_test.go"]
 
 PROPS = {
+    "C15": dict(
+        lean_modules=["L4.Props.C15", "L4.Expect.C15"],
+        stages=[dict(name="cfg", pkg="./integration/", test="TestVerifCfg", files=INTEG + ["integration/verif_cfg_test.go"], nq=300, nt=6000)],
+        level_text="Kernel-checked on a generic option-table interpreter (the shape of the flat UnmarshalCaddyfile implementations: string / integer / duration / list / flag options, duplicate and arity rules, omitempty) for every table and every well-formed block over it: parsing the block the renderer writes gives back exactly the option values, the module's JSON states for every option exactly the value written and nothing else, the order of the options is irrelevant, a scalar option given twice and an unknown option are rejected; on the transcription of ParseCaddyfileNestedMatcherSet / ParseCaddyfileNestedHandlers: a set with distinct matcher names adapts to the module map of its matchers, a repeated matcher is rejected, handler lists keep their order with the module name inline. The transcription of the whole layer4 adapter (global blocks combined, servers numbered, named matcher sets, matching_timeout, routes referring to sets, subroute / tee / not nesting; tables for proxy incl. nested health_checks / load_balancing paths, throttle, proxy_protocol, remote_ip, local_ip, regexp and the option-less modules) is tied to the real caddyfile adapter by a differential on the lexed tokens of generated Caddyfiles (modules without a table enter through their JSON as adapted alone: composition only); the adapter's JSON is also compared with the JSON the generator states for the same abstract configuration, and every generated configuration is judged for determinism, loading + provisioning (caddy.Validate) and load / re-serialise round trip of every handler and matcher module.",
+        level_note="Trusted: Lean kernel, harness + driver, Caddy's lexer / dispenser / httpcaddyfile global-option plumbing, encoding/json. Partial: the round-trip theorem is for table-shaped modules and assumes the two string codec laws (decimal integers, nanosecond durations: sampled, not proved); the structural transcription (routes, names, nesting) is tied by the differential, its `adapt ∘ render` statement is proved only for matcher sets and handler lists; 'loads and provisions' and the JSON round trip are Go-side oracles; tls / http / socks / dns / openvpn / winbox / clock modules are covered by generator-stated expectations for a subset of their syntax, not by tables; the listener-wrapper form is not generated.",
+        rule="cfg: 1-2 global layer4 blocks with 0-2 servers each (1-2 listen addresses), 0-3 named matcher sets (inline or block form, 14 matcher kinds incl. not / tls blocks with negated ranges), optional matching_timeout, 0-3 routes referring to 0-2 sets with 0-2 handlers (echo, throttle, proxy_protocol, proxy with 0-12 options in random order and upstream lines, socks5, subroute and tee to depth 2), items interleaved in random order; non-trivial = adapter accepted; distinct = distinct JSON",
+        assumptions=["the generator's expected JSON is written from the documented syntax of each module"],
+    ),
     "C11": dict(
         lean_modules=["L4.Props.C11", "L4.Expect.C11"],
         stages=[dict(name="health", pkg="./modules/l4proxy/", test="TestVerifHealth", files=HEALTH, nq=48, nt=600)],
